@@ -147,6 +147,7 @@ Proof.
     unfold deser_graph_body in H. cbv zeta in H.
     destruct (negb _); [discriminate|].
     apply bind_ok in H. destruct H as [ins [_ H]].
+    apply bind_ok in H. destruct H as [its [_ H]].
     apply bind_ok in H. destruct H as [st [_ H]].
     apply bind_ok in H. destruct H as [cur2 [_ H]].
     apply bind_ok in H. destruct H as [[nodes cur3] [En H]].
